@@ -34,6 +34,8 @@ func genScenario(t *rapid.T, kind string) LeaseScenario {
 		s.Renewals = rapid.IntRange(0, 3).Draw(t, "renewals")
 	case "unlockrace":
 		s.After = rapid.Bool().Draw(t, "after")
+	case "waithold":
+		s.Wait10 = rapid.SampledFrom([]int{3, 6, 9, 12, 18, 25}).Draw(t, "wait10")
 	case "handoff":
 		s.PhasePct = rapid.SampledFrom([]int{5, 50, 80, 90, 95, 99, 101, 110}).Draw(t, "phase")
 		s.Renewals = rapid.IntRange(0, 2).Draw(t, "renewals")
@@ -43,7 +45,7 @@ func genScenario(t *rapid.T, kind string) LeaseScenario {
 }
 
 func recordLease(s LeaseScenario, info LeaseInfo) {
-	nt := (s.Kind == "hold" && info.InjectedFailures > 0) || s.Kind == "death" || s.Kind == "handoff" || (s.Kind == "unlockrace" && info.HeldInFlight)
+	nt := (s.Kind == "hold" && info.InjectedFailures > 0) || s.Kind == "death" || s.Kind == "handoff" || s.Kind == "waithold" || (s.Kind == "unlockrace" && info.HeldInFlight)
 	cl := []string{"scenario:" + s.Kind, fmt.Sprintf("lease_ms:%d", s.LeaseMs)}
 	if info.Retried > 0 {
 		cl = append(cl, "confirmed_only_after_retry")
@@ -88,7 +90,7 @@ func TestC05Rapid(t *testing.T) {
 		var batch []LeaseScenario
 		races := 0
 		for i := 0; i < n; i++ {
-			kind := rapid.SampledFrom([]string{"hold", "hold", "hold", "death", "death", "unlockrace", "handoff", "handoff"}).Draw(rt, "kind")
+			kind := rapid.SampledFrom([]string{"hold", "hold", "hold", "death", "death", "unlockrace", "handoff", "handoff", "waithold"}).Draw(rt, "kind")
 			if kind == "unlockrace" {
 				if races >= 3 { // every such scenario parks one worker of the timer pool for a while
 					kind = "hold"
@@ -121,6 +123,9 @@ func TestC05EveryK(t *testing.T) {
 	for _, after := range []bool{false, true} {
 		batch = append(batch, LeaseScenario{Kind: "unlockrace", LeaseMs: lease, After: after})
 	}
+	for _, w := range []int{6, 12, 22} {
+		batch = append(batch, LeaseScenario{Kind: "waithold", LeaseMs: lease, Wait10: w})
+	}
 	for _, ph := range []int{90, 99, 105} {
 		for _, same := range []bool{false, true} {
 			batch = append(batch, LeaseScenario{Kind: "handoff", LeaseMs: lease, PhasePct: ph, Same: same})
@@ -133,4 +138,38 @@ func TestC05EveryK(t *testing.T) {
 	}
 	runBatch(t, "TestC05EveryK", batch)
 	vstat.For("C05").SetExhaustive("kth_renewal_failure", map[string]any{"periods": periods, "k_from": 1, "k_to": 2*periods - 1, "lease_ms": lease})
+}
+
+// TestC01LongWaiter: mutual exclusion on the real clock when the next holder had to wait a long time for the lock
+// (the part of C01 the frozen-clock engine cannot see: everything that depends on time passing between the start of
+// an attempt and its success).
+func TestC01LongWaiter(t *testing.T) {
+	if !hooksOn {
+		t.Skip("distlock/timeout hooks unavailable")
+	}
+	resetTimers()
+	defer drainTimers()
+	st := vstat.For("C01")
+	var batch []LeaseScenario
+	for _, w := range vstat.Pick([]int{6, 12, 22}, []int{3, 6, 9, 12, 15, 22, 31}) {
+		batch = append(batch, LeaseScenario{Kind: "waithold", LeaseMs: 300, Wait10: w, OnlyExcl: true})
+	}
+	infos := make([]LeaseInfo, len(batch))
+	viols := make([]*vstat.Violation, len(batch))
+	var wg sync.WaitGroup
+	for i := range batch {
+		wg.Add(1)
+		go func(i int) {
+			defer wg.Done()
+			infos[i], viols[i] = RunLease(batch[i])
+		}(i)
+	}
+	wg.Wait()
+	for i := range batch {
+		if v := viols[i]; v != nil {
+			v.Sig = "two-holders:" + v.Sig
+		}
+		st.Report(t, "TestC01LongWaiter", batch[i], viols[i])
+		st.Case(true, vstat.Hash(batch[i]), func() any { return batch[i] }, "real_clock_long_waiter")
+	}
 }
